@@ -97,7 +97,7 @@ def opValidate : Handler := fun j => do
       (← getStr (← field j "u")))
   | "sys" =>
     return resJson sysJson (mkSys (← getStr (← field j "space")) (← getStr (← field j "time")) (← getStr (← field j "quantity")))
-  | "index_map" => return resJson unitJson (checkIndexMap (← getIntList (← field j "im")) (← getIntList (← field j "env")))
+  | "index_map" => return resJson unitJson (vCheckIndexMap (← getIntList (← field j "im")) (← getIntList (← field j "env")))
   | "environments" => return resJson unitJson (checkEnvironments (← getStrList (← field j "envs")))
   | _ => throw s!"unknown validate kind {kind}"
 
